@@ -44,6 +44,7 @@ MUTANTS = [
     ("cplx-container-transpose", "C10", "src/pomerol/FieldOperatorContainer.cpp", "cdag.getPartFromRightIndex(cdag_map_it->first).getColMajorValue().adjoint();", "cdag.getPartFromRightIndex(cdag_map_it->first).getColMajorValue().transpose();"),
     ("cplx-hopping-conj", "C04", "src/pomerol/LatticePresets.cpp", "Hopping(Label2, Label1, conj(t), Orbital2, Orbital1, Spin2, Spin1)); // Hermite conjugate", "Hopping(Label2, Label1, t, Orbital2, Orbital1, Spin2, Spin1)); // Hermite conjugate"),
     ("cplx-h-real-1x1", "C03", "src/pomerol/HamiltonianPart.cpp", "\t    Eigenvalues << std::real(H(0,0));", "\t    Eigenvalues << std::abs(H(0,0));"),
+    ("cplx-gf-conj", "C12", "src/pomerol/GreensFunctionPart.cpp", "ComplexType Residue = Cinner.value() * CXinner.value() *", "ComplexType Residue = std::conj(Cinner.value()) * CXinner.value() *"),
     ("gf-tau-branch", "C11", "src/pomerol/GreensFunctionPart.cpp", "return Pole > 0 ? -Residue*exp(-tau*Pole)/(1 + exp(-beta*Pole)) :", "return Pole < 0 ? -Residue*exp(-tau*Pole)/(1 + exp(-beta*Pole)) :"),
     ("vertex-sign", "C12", "src/pomerol/Vertex4.cpp", "Value -= beta*  G14(MatsubaraNumber1)*G23(MatsubaraNumber2);", "Value += beta*  G14(MatsubaraNumber1)*G23(MatsubaraNumber2);"),
     ("resonance-tol", "C12", "include/pomerol/TwoParticleGFPart.h", "return (abs(Diff) < KroneckerSymbolTolerance ? ResCoeff : (NonResCoeff/Diff) )\n                /((z1-Poles[0])*(z3-Poles[2]));\n    } else {", "return (abs(Diff) < 0*KroneckerSymbolTolerance ? ResCoeff : (NonResCoeff/Diff) )\n                /((z1-Poles[0])*(z3-Poles[2]));\n    } else {"),
